@@ -58,8 +58,8 @@ package gdbi
 //@   nopanic
 //@   pure
 //@   requires nonnil: t != nil
-//@   requires notnull: t.Current != nil
-//@   ensures id: result == t.Current.ID
+//@   ensures id: t.Current != nil ==> result == t.Current.ID
+//@   ensures null: t.Current == nil ==> result == ""
 
 //@ func (*BaseTraveler).IsSignal
 //@   property C01
